@@ -35,7 +35,7 @@ theorem indexAssert_specV (hr : RecOK r k) (h : PostV c0 c) (hn : Fits (k + 1) c
   · exact Holds.pure h
 
 theorem indexNameValue_spec (h : Post c0 c) (hn : Fits (k + 1) c0 n) :
-    Holds (indexNameValue n) c (fun r c' => c = c' ∧ ∀ name loc, r = some (name, loc) → LocIn c0 loc) := by
+    Holds (indexNameValue n) c (fun r c' => c = c' ∧ ∀ name loc, r = some (name, loc) → TokIn c0 loc name) := by
   unfold indexNameValue
   split
   · rename_i nm hnm
@@ -90,10 +90,12 @@ theorem indexForeachIteratorInit_specV (hr : RecOK r k) (h : PostV c0 c) (hn : F
 
 theorem indexForeachIterator_specV (hr : RecOK r k) (h : PostV c0 c) (hn : Fits (k + 1) c0 n) :
     Holds (indexForeachIterator r n) c
-      (fun x c' => PostV c0 c' ∧ ∀ name id, x = some (name, id) → id < c'.symbolMap.sizes.vars) := by
+      (fun x c' => PostV c0 c' ∧ ∀ name id, x = some (name, id) →
+        id < c'.symbolMap.sizes.vars ∧ (c'.symbolMap.var id).name = name) := by
   unfold indexForeachIterator
   have hnone : ∀ {c1 : IndexCtx}, PostV c0 c1 → (PostV c0 c1 ∧ ∀ (name : String) (id : Nat),
-      (none : Option (String × Nat)) = some (name, id) → id < c1.symbolMap.sizes.vars) :=
+      (none : Option (String × Nat)) = some (name, id) →
+        id < c1.symbolMap.sizes.vars ∧ (c1.symbolMap.var id).name = name) :=
     fun h1 => ⟨h1, by intro _ _ hl; cases hl⟩
   split
   · rename_i nm hnm
@@ -106,12 +108,12 @@ theorem indexForeachIterator_specV (hr : RecOK r k) (h : PostV c0 c) (hn : Fits 
       · rename_i init hinit
         refine Holds.bind (indexForeachIteratorInit_specV hr h (hn.sub (Ast.child_sub hinit))) ?_
         intro t c2 h2
-        refine Holds.bind (Holds.postV h2 (addVariable_step h2.inv (hloc.nodeLoc h2.toPost))) ?_
-        rintro id c3 ⟨h3, hid, _⟩
+        refine Holds.bind (Holds.postV h2 (addVariable_step h2.inv (hloc.nodeLoc h2.toPost) (hloc.tokAt h2.toPost))) ?_
+        rintro id c3 ⟨h3, hid, _, hvar⟩
         refine Holds.pure ⟨h3, ?_⟩
         intro _ _ hl
         cases hl
-        exact hid
+        exact ⟨hid, by rw [hvar]⟩
       · exact Holds.pure (hnone h)
     · exact Holds.pure (hnone h)
   · exact Holds.pure (hnone h)
@@ -130,7 +132,8 @@ theorem indexDump_spec (hr : RecOK r k) (h : Post c0 c) (hn : Fits (k + 1) c0 n)
 
 theorem indexForeachIterator_spec (hr : RecOK r k) (h : Post c0 c) (hn : Fits (k + 1) c0 n) :
     Holds (indexForeachIterator r n) c
-      (fun x c' => Post c0 c' ∧ ∀ name id, x = some (name, id) → id < c'.symbolMap.sizes.vars) :=
+      (fun x c' => Post c0 c' ∧ ∀ name id, x = some (name, id) →
+        id < c'.symbolMap.sizes.vars ∧ (c'.symbolMap.var id).name = name) :=
   Holds.post h (indexForeachIterator_specV hr (PostV.refl h.inv) (hn.ext h.ext))
 
 theorem indexForeach_spec (hr : RecOK r k) (h : Post c0 c) (hcf : clsFree c0) (hn : Fits (k + 1) c0 n) :
@@ -143,7 +146,8 @@ theorem indexForeach_spec (hr : RecOK r k) (h : Post c0 c) (hcf : clsFree c0) (h
     split
     · rename_i name vid
       have hdo : DefOnly c1.symbolMap (.foreach name vid) := by intro id hid; cases hid
-      refine Holds.bind (scopesPush_spec h1 (kind := .foreach name vid) (hx name vid rfl) hdo) ?_
+      refine Holds.bind (scopesPush_spec h1 (kind := .foreach name vid) (hx name vid rfl).1 hdo
+        (by intro _ _ hk; cases hk; exact (hx name vid rfl).2)) ?_
       rintro _ c2 ⟨hc2, h2⟩
       split
       · rename_i body hbody
@@ -242,7 +246,7 @@ theorem indexTemplateArgDecl_specV (hr : RecOK r k) (h : PostV c0 c) (hn : Fits 
         split
         · rename_i typ
           dsimp only
-          refine Holds.bind (Holds.postV h2 (addTemplateArgument_step h2.inv (hloc.nodeLoc h2.toPost))) ?_
+          refine Holds.bind (Holds.postV h2 (addTemplateArgument_step h2.inv (hloc.nodeLoc h2.toPost) (hloc.tokAt h2.toPost))) ?_
           rintro taId c3 ⟨h3, hta, htaeq⟩
           have hk3 : HasKind isRecOrMcKind c3 := hk.has.ext h3.ext
           have htafile : (c3.symbolMap.templateArg taId).defineLoc.file = loc.file := by rw [htaeq]
@@ -255,7 +259,7 @@ theorem indexTemplateArgDecl_specV (hr : RecOK r k) (h : PostV c0 c) (hn : Fits 
             have hrid0 : c0.scopes.currentRecordId = some recordId := by
               rw [← currentRecordId_same h3.same]; exact hrid.symm
             obtain ⟨hv0, hf0⟩ := hk.recd recordId hrid0
-            refine Holds.bind (Holds.postV' h3 (recordMut_insertTa_step h3.inv recordId name hta ?_)) ?_
+            refine Holds.bind (Holds.postV' h3 (recordMut_insertTa_step h3.inv recordId name hta ?_ (by rw [htaeq]))) ?_
             · intro _ hcls
               rw [h3.ext.sm.recKind recordId hv0] at hcls
               have := hf0 hcls
@@ -290,7 +294,7 @@ theorem indexTemplateArgDecl_specV (hr : RecOK r k) (h : PostV c0 c) (hn : Fits 
               have hm0 : c0.scopes.currentMulticlassId = some mcId := by
                 rw [← currentMulticlassId_same h3.same]; exact hmid.symm
               obtain ⟨hv0, hf0⟩ := hk.mc hr0 mcId hm0
-              refine Holds.bind (Holds.postV' h3 (multiclassMut_insertTa_step h3.inv mcId name hta ?_)) ?_
+              refine Holds.bind (Holds.postV' h3 (multiclassMut_insertTa_step h3.inv mcId name hta ?_ (by rw [htaeq]))) ?_
               · intro _
                 have := hf0
                 rw [← h3.ext.trace, hhead, ← h3.ext.sm.mcLoc mcId hv0] at this
@@ -519,7 +523,8 @@ theorem resolveClassRefAsClass_specV (hr : RecOK r k) (h : PostV c0 c) (hn : Fit
       split
       · rename_i classId
         have hcid : classId < c.symbolMap.sizes.recs := h.inv.ids.cls name classId hfc.symm
-        refine Holds.bind (addReference_specV h (s := .record classId) hcid hloc) ?_
+        refine Holds.bind (addReference_specV h (s := .record classId) hcid hloc (h.inv.names.cls name classId hfc.symm).1
+          (h.inv.names.cls name classId hfc.symm).2) ?_
         intro _ c2 h2
         refine Holds.bind (withSM_spec _) ?_
         rintro nta _ ⟨rfl, _⟩
@@ -537,7 +542,7 @@ theorem resolveClassRefAsClass_specV (hr : RecOK r k) (h : PostV c0 c) (hn : Fit
         · rename_i l hl
           exact (argsSome_specV hr h2 hn tas (Ast.child_sub hl) (some classId)).mono hfin
         · exact (argsNone_specV h2 hn tas (some classId)).mono hfin
-      · refine Holds.bind (error_specV h hloc.range _) ?_
+      · refine Holds.bind (error_specV h hloc.locIn.range _) ?_
         intro _ c2 h2
         exact Holds.pure (hnone h2)
     · exact Holds.pure (hnone h)
@@ -565,7 +570,8 @@ theorem resolveClassRefAsMulticlass_specV (hr : RecOK r k) (h : PostV c0 c) (hn 
       split
       · rename_i mcId
         have hcid : mcId < c.symbolMap.sizes.mcs := h.inv.ids.mcn name mcId hfc.symm
-        refine Holds.bind (addReference_specV h (s := .multiclass mcId) hcid hloc) ?_
+        refine Holds.bind (addReference_specV h (s := .multiclass mcId) hcid hloc (h.inv.names.mcn name mcId hfc.symm)
+          (h.inv.names.mcs mcId hcid)) ?_
         intro _ c2 h2
         refine Holds.bind (withSM_spec _) ?_
         rintro nta _ ⟨rfl, _⟩
@@ -583,7 +589,7 @@ theorem resolveClassRefAsMulticlass_specV (hr : RecOK r k) (h : PostV c0 c) (hn 
         · rename_i l hl
           exact (argsSome_specV hr h2 hn tas (Ast.child_sub hl) (some mcId)).mono hfin
         · exact (argsNone_specV h2 hn tas (some mcId)).mono hfin
-      · refine Holds.bind (error_specV h hloc.range _) ?_
+      · refine Holds.bind (error_specV h hloc.locIn.range _) ?_
         intro _ c2 h2
         exact Holds.pure (hnone h2)
     · exact Holds.pure (hnone h)
@@ -699,9 +705,9 @@ theorem indexFieldDef_specV {rid : Nat} (hr : RecOK r k) (h : PostV c0 c) (hn : 
         · rename_i typ
           refine Holds.bind (Holds.postV h1 (addRecordField_step h1.inv
             (a := { name := name, typ := typ, parent := rid, defineLoc := loc })
-            (Nat.lt_of_lt_of_le hvalid h1.ext.sizes.recs) (hloc.nodeLoc h1.toPost))) ?_
+            (Nat.lt_of_lt_of_le hvalid h1.ext.sizes.recs) (hloc.nodeLoc h1.toPost) (hloc.tokAt h1.toPost))) ?_
           rintro fid c2 ⟨h2, hfid, hfeq⟩
-          refine Holds.bind (Holds.postV' h2 (recordMut_insertField_step h2.inv rid name hfid ?_)) ?_
+          refine Holds.bind (Holds.postV' h2 (recordMut_insertField_step h2.inv rid name hfid ?_ (by rw [hfeq]))) ?_
           · intro _
             rw [hfeq, h2.ext.sm.recLoc rid hvalid]
             have := hloc.1
@@ -759,9 +765,10 @@ theorem indexFieldLet_specV {rid : Nat} (hr : RecOK r k) (h : PostV c0 c) (hn : 
         rintro ft c' ⟨hcc, _⟩
         subst hcc
         refine Holds.bind (Holds.postV h (addRecordField_step h.inv
-          (a := { name := name, typ := ft, parent := rid, defineLoc := loc }) hvalid (hloc.nodeLoc h.toPost))) ?_
+          (a := { name := name, typ := ft, parent := rid, defineLoc := loc }) hvalid (hloc.nodeLoc h.toPost)
+          (hloc.tokAt h.toPost))) ?_
         rintro fid c2 ⟨h2, hfid, hfeq⟩
-        refine Holds.bind (Holds.postV' h2 (recordMut_insertField_step h2.inv rid name hfid ?_)) ?_
+        refine Holds.bind (Holds.postV' h2 (recordMut_insertField_step h2.inv rid name hfid ?_ (by rw [hfeq]))) ?_
         · intro _
           rw [hfeq, h2.ext.sm.recLoc rid hvalid]
           have := hloc.1
@@ -769,7 +776,9 @@ theorem indexFieldLet_specV {rid : Nat} (hr : RecOK r k) (h : PostV c0 c) (hn : 
           exact (Option.some.inj this).symm
         intro _ c3 h3
         refine Holds.bind (addReference_specV h3 (s := .recordField fieldId)
-          (Nat.lt_of_lt_of_le hfld h3.ext.sizes.flds) hloc) ?_
+          (Nat.lt_of_lt_of_le hfld h3.ext.sizes.flds) hloc
+          ((h3.ext.sm.n.nm (.recordField fieldId) hfld).trans (c.symbolMap.recordFindField_nm h.inv.names hff.symm))
+          (h3.inv.names.flds fieldId (Nat.lt_of_lt_of_le hfld h3.ext.sizes.flds))) ?_
         intro _ c4 h4
         split
         · rename_i v hv
@@ -783,7 +792,7 @@ theorem indexFieldLet_specV {rid : Nat} (hr : RecOK r k) (h : PostV c0 c) (hn : 
             · exact hret h5
           · exact hret h5
         · exact hret h4
-      · refine Holds.bind (error_specV h hloc.range _) ?_
+      · refine Holds.bind (error_specV h hloc.locIn.range _) ?_
         intro _ c1 h1
         split
         · rename_i v hv
@@ -869,7 +878,7 @@ theorem indexClass_spec (hr : RecOK r k) (h : Post c0 c) (hcf : clsFree c0) (hn 
     split
     · rename_i name loc
       have hloc := hx name loc rfl
-      refine Holds.bind (Holds.post h (addRecord_step h.inv true ⟨rfl, rfl, rfl⟩ (hloc.nodeLoc h))) ?_
+      refine Holds.bind (Holds.post h (addRecord_step h.inv true ⟨rfl, rfl, rfl⟩ (hloc.nodeLoc h) (hloc.tokAt h))) ?_
       rintro recordId c1 ⟨h1, hid, hreq⟩
       refine Holds.bind (scopesPush_step h1.inv (kind := .record recordId) hid) ?_
       rintro _ c2 ⟨hc2, hi2⟩
@@ -971,12 +980,12 @@ theorem indexDef_spec (hr : RecOK r k) (h : Post c0 c) (hcf : clsFree c0) (hn : 
         rintro mc c' ⟨hcc, _⟩
         subst hcc
         split
-        · refine Holds.bind (addMulticlassDef_step h.inv ⟨rfl, rfl, rfl⟩ (hloc.nodeLoc h)) ?_
+        · refine Holds.bind (addMulticlassDef_step h.inv ⟨rfl, rfl, rfl⟩ (hloc.nodeLoc h) (hloc.tokAt h)) ?_
           rintro defId c1 ⟨h1, hid, hreq⟩
-          exact hk defId name loc h1 hloc hid hreq
-        · refine Holds.bind (addRecord_step h.inv _ ⟨rfl, rfl, rfl⟩ (hloc.nodeLoc h)) ?_
+          exact hk defId name loc h1 hloc.locIn hid hreq
+        · refine Holds.bind (addRecord_step h.inv _ ⟨rfl, rfl, rfl⟩ (hloc.nodeLoc h) (hloc.tokAt h)) ?_
           rintro defId c1 ⟨h1, hid, hreq⟩
-          exact hk defId name loc h1 hloc hid hreq
+          exact hk defId name loc h1 hloc.locIn hid hreq
       · exact Holds.pure ⟨h, trivial⟩
     · refine Holds.bind (nextAnonymousDefName_spec h) ?_
       intro name c1 h1
@@ -1055,7 +1064,7 @@ theorem indexDefm_spec (hr : RecOK r k) (h : Post c0 c) (hcf : clsFree c0) (hn :
     split
     · rename_i name loc
       have hloc := hx name loc rfl
-      refine Holds.bind (Holds.post h (addDefm_step h.inv _ rfl (hloc.nodeLoc h))) ?_
+      refine Holds.bind (Holds.post h (addDefm_step h.inv _ rfl (hloc.nodeLoc h) (hloc.tokAt h))) ?_
       rintro defId c1 ⟨h1, hid⟩
       exact hrest defId h1 hid
     · exact Holds.pure h
@@ -1091,7 +1100,7 @@ theorem indexDefset_spec (hr : RecOK r k) (h : Post c0 c) (hcf : clsFree c0) (hn
         split
         · rename_i typ
           refine Holds.bind (Holds.post h1 (addDefset_step h1.inv (a := { name := name, typ := typ, defineLoc := loc })
-            rfl (hloc.nodeLoc h1))) ?_
+            rfl (hloc.nodeLoc h1) (hloc.tokAt h1))) ?_
           rintro dsId c2 ⟨h2, hid, _⟩
           have hdo : DefOnly c2.symbolMap (.defset dsId) := by intro id hid'; cases hid'
           refine Holds.bind (scopesPush_spec h2 (kind := .defset dsId) hid hdo) ?_
@@ -1128,7 +1137,7 @@ theorem indexMultiClass_spec (hr : RecOK r k) (h : Post c0 c) (hcf : clsFree c0)
     · rename_i name loc
       have hloc := hx name loc rfl
       refine Holds.bind (Holds.post h (addMulticlass_step h.inv (a := { name := name, defineLoc := loc }) rfl rfl
-        (hloc.nodeLoc h))) ?_
+        (hloc.nodeLoc h) (hloc.tokAt h))) ?_
       rintro mcId c1 ⟨h1, hid, hmloc⟩
       have hdo : DefOnly c1.symbolMap (.multiclass mcId) := by intro id hid'; cases hid'
       refine Holds.bind (scopesPush_spec h1 (kind := .multiclass mcId) hid hdo) ?_
@@ -1251,7 +1260,7 @@ theorem indexInclude_spec (hr : RecOK r k) (h : Post c0 c) (hcf : clsFree c0) (h
       have h1 : Post c0 c1 := by
         subst hc1
         exact ⟨⟨h.inv.ws, h.inv.traceNe, h.inv.trace, h.inv.scopesNe, h.inv.scopesNd, h.inv.scopes, h.inv.ids, h.inv.locs,
-          h.inv.files, h.inv.diags⟩,
+          h.inv.files, h.inv.diags, h.inv.names, h.inv.scopesNm⟩,
           h.ext.of_same_scopes rfl rfl rfl (fun f hf => List.mem_cons_of_mem _ hf) (SymMap.Grow.refl _)⟩
       have hpend : pending c = pending c1 + ((c.ws.tree u).height + 2) := by
         subst hc1; exact pending_markIndexed hu hni
@@ -1274,7 +1283,7 @@ theorem indexInclude_spec (hr : RecOK r k) (h : Post c0 c) (hcf : clsFree c0) (h
         have hi2 : Inv c2 := by
           subst hc2
           refine ⟨h1.inv.ws, by simp, ?_, h1.inv.scopesNe, h1.inv.scopesNd, h1.inv.scopes, h1.inv.ids, h1.inv.locs,
-            h1.inv.files, h1.inv.diags⟩
+            h1.inv.files, h1.inv.diags, h1.inv.names, h1.inv.scopesNm⟩
           intro f hf
           simp only [List.mem_cons] at hf
           rcases hf with rfl | hf
@@ -1310,7 +1319,7 @@ theorem indexInclude_spec (hr : RecOK r k) (h : Post c0 c) (hcf : clsFree c0) (h
           have hc2sm : c2.symbolMap = c.symbolMap := by rw [hc2, hc1]
           have hc2ix : c2.indexedFiles = u :: c.indexedFiles := by rw [hc2, hc1]
           refine h.trans ⟨⟨h3.inv.ws, h.inv.traceNe, ?_, h3.inv.scopesNe, h3.inv.scopesNd, h3.inv.scopes, h3.inv.ids,
-            h3.inv.locs, h3.inv.files, h3.inv.diags⟩, ⟨?_, rfl, ?_, ?_, ?_⟩⟩
+            h3.inv.locs, h3.inv.files, h3.inv.diags, h3.inv.names, h3.inv.scopesNm⟩, ⟨?_, rfl, ?_, ?_, ?_⟩⟩
           · intro f hf
             exact h3.inv.trace f (by rw [htr3]; exact List.mem_cons_of_mem _ hf)
           · exact h3.ext.ws.trans hc2ws
@@ -1385,10 +1394,11 @@ theorem indexType_specV (hr : RecOK r k) (h : PostV c0 c) (hn : Fits (k + 1) c0 
         split
         · rename_i classId
           have hcid : classId < c.symbolMap.sizes.recs := h.inv.ids.cls name classId hfc.symm
-          refine Holds.bind (addReference_specV h (s := .record classId) hcid hloc) ?_
+          refine Holds.bind (addReference_specV h (s := .record classId) hcid hloc (h.inv.names.cls name classId hfc.symm).1
+          (h.inv.names.cls name classId hfc.symm).2) ?_
           intro _ c2 h2
           exact Holds.pure h2
-        · refine Holds.bind (error_specV h hloc.range _) ?_
+        · refine Holds.bind (error_specV h hloc.locIn.range _) ?_
           intro _ c2 h2
           exact Holds.pure h2
       · exact Holds.pure h
@@ -1409,7 +1419,7 @@ theorem indexIdentifierValue_specV (h : PostV c0 c) (hn : Fits (k + 1) c0 n) :
     subst hcc
     split
     · rename_i symbolId
-      refine Holds.bind (addReference_specV h (hy symbolId rfl) hloc) ?_
+      refine Holds.bind (addReference_specV h (hy symbolId rfl).1 hloc (hy symbolId rfl).2.1 (hy symbolId rfl).2.2) ?_
       intro _ c2 h2
       split
       · refine Holds.bind (withSM_spec _) ?_
@@ -1429,7 +1439,7 @@ theorem indexIdentifierValue_specV (h : PostV c0 c) (hn : Fits (k + 1) c0 n) :
            exact Holds.pure h2)
     · split
       · exact Holds.pure h
-      · refine Holds.bind (error_specV h hloc.range _) ?_
+      · refine Holds.bind (error_specV h hloc.locIn.range _) ?_
         intro _ c2 h2
         exact Holds.pure h2
   · exact Holds.pure h
@@ -1451,7 +1461,8 @@ theorem indexClassValue_specV (hr : RecOK r k) (h : PostV c0 c) (hn : Fits (k + 
       split
       · rename_i classId
         have hcid : classId < c.symbolMap.sizes.recs := h.inv.ids.cls name classId hfc.symm
-        refine Holds.bind (addReference_specV h (s := .record classId) hcid hloc) ?_
+        refine Holds.bind (addReference_specV h (s := .record classId) hcid hloc (h.inv.names.cls name classId hfc.symm).1
+          (h.inv.names.cls name classId hfc.symm).2) ?_
         intro _ c2 h2
         refine Holds.bind (withSM_spec _) ?_
         rintro nta c' ⟨hcc, _⟩
@@ -1464,7 +1475,7 @@ theorem indexClassValue_specV (hr : RecOK r k) (h : PostV c0 c) (hn : Fits (k + 
         · rename_i l hl
           exact (argsSome_specV hr h2 hn tas (Ast.child_sub hl) _).mono (fun _ _ hp => hp.1)
         · exact (argsNone_specV h2 hn tas _).mono (fun _ _ hp => hp.1)
-      · refine Holds.bind (error_specV h hloc.range _) ?_
+      · refine Holds.bind (error_specV h hloc.locIn.range _) ?_
         intro _ c2 h2
         exact Holds.pure h2
     · exact Holds.pure h
@@ -1601,7 +1612,8 @@ theorem indexInnerValue_specV (hr : RecOK r k) (h : PostV c0 c) (hn : Fits (k + 
               split
               · rename_i fieldId
                 have hfld : fieldId < c2.symbolMap.sizes.flds := c2.symbolMap.typFindField_lt h2.inv.ids hff.symm
-                refine Holds.bind (addReference_specV h2 (s := .recordField fieldId) hfld hloc) ?_
+                refine Holds.bind (addReference_specV h2 (s := .recordField fieldId) hfld hloc
+                  (c2.symbolMap.typFindField_nm h2.inv.names hff.symm) (h2.inv.names.flds fieldId hfld)) ?_
                 intro _ c3 h3
                 refine Holds.bind (withSM_spec _) ?_
                 rintro ft c' ⟨hcc, _⟩
